@@ -15,11 +15,34 @@ use std::io::{BufRead, Write};
 #[global_allocator]
 static GLOBAL: alloc::Counting = alloc::Counting;
 
+/// A logger that FORMATS every record of the library (all levels) and throws the text away: `Debug` / `Display`
+/// implementations reached only through log lines (identities, errors, events) run under the same `catch_unwind`,
+/// stack and allocation observation as everything else — a panic inside one is a panic of the library call that logs.
+struct FormatAll;
+impl log::Log for FormatAll {
+    fn enabled(&self, _: &log::Metadata) -> bool {
+        true
+    }
+    fn log(&self, record: &log::Record) {
+        let _ = std::hint::black_box(format!("{}", record.args()));
+    }
+    fn flush(&self) {}
+}
+static LOGGER: FormatAll = FormatAll;
+
+/// every panic in the process, on whatever thread or task (a panic inside a task the library spawned is swallowed by the
+/// runtime: nothing an op returns would show it)
+pub static PANICS: std::sync::atomic::AtomicUsize = std::sync::atomic::AtomicUsize::new(0);
+
 fn main() {
+    let _ = log::set_logger(&LOGGER);
+    log::set_max_level(log::LevelFilter::Trace);
     let args: Vec<String> = std::env::args().collect();
     let engine = args.get(1).map(|s| s.as_str()).unwrap_or("");
     // panics are outcomes here, not noise
-    std::panic::set_hook(Box::new(|_| {}));
+    std::panic::set_hook(Box::new(|_| {
+        PANICS.fetch_add(1, std::sync::atomic::Ordering::SeqCst);
+    }));
     let stdin = std::io::stdin();
     let stdout = std::io::stdout();
     let mut out = std::io::BufWriter::new(stdout.lock());
@@ -85,7 +108,9 @@ fn main() {
                 if words.is_empty() || words[0].starts_with('#') {
                     continue;
                 }
+                let before = PANICS.load(std::sync::atomic::Ordering::SeqCst);
                 let r = match std::panic::catch_unwind(std::panic::AssertUnwindSafe(|| e.op(&words))) {
+                    Ok(r) if PANICS.load(std::sync::atomic::Ordering::SeqCst) != before => format!("{} PANIC(in a spawned task)", r),
                     Ok(r) => r,
                     Err(_) => "PANIC".to_string(),
                 };
